@@ -9,6 +9,8 @@ from tiv.astutil import body_walk, call_name, dotted, enclosing_stmt, guards, no
 from tiv.mutate import M
 
 RULES = {
+    "MEMO": "memo safety (shared, rules/common.py): a memoised function in this property's files (or called from them) is a function of its "
+            "arguments only (no terminal/ambient/receiver state outside the key) and no caller mutates its result in place",
     "R1": "immutability is an effect property: outside constructors (__new__/__init__/__init_subclass__) no method of RenderArgs, "
           "ArgsNamespace, Frame, AlignedPadding, ExactPadding stores to an attribute/item of self, a parameter or a class, and no method "
           "calls a mutator (update/setdefault/pop/clear/append/__setitem__ as a statement) on a container that is not fresh in that method",
@@ -236,6 +238,9 @@ def run(ck, m):
         r = [x for x in body_walk(fn) if isinstance(x, ast.Raise) and "UnknownArgsFieldError" in norm(x)]
         eff = [c for c in body_walk(fn) if isinstance(c, ast.Call) and first_effect in norm(c.func)]
         ck.ob("R6", fn, bool(r) and bool(eff) and r[0].lineno < eff[0].lineno, f"{q}: unknown fields must be rejected before the new object is built", stmt=f"{q}: unknown fields rejected first")
+
+    from rules.common import rule_memo_safety
+    rule_memo_safety(ck, m, "MEMO", "C16")
 
 
 MUTANTS = [
